@@ -14,6 +14,11 @@ CLAIMED = {
    note="Hand model Tape.v/Jacobian.v; rounding not modelled (test data dyadic, results exact); the multi-lane zero shortcut with non-finite multipliers is outside the ring model; negative Matrix strides as target outside the claim.",
    technique="Coq proof (adjoint identity by induction over the tape; permutation-of-canonical-writes for each driver) + differential correspondence of extracted model vs Stack",
    design="DESIGN.md §4 C02"),
+ "C09": dict(
+   text="Machine-checked proof (Coq, axiom-free) about the recording-buffer model: from ANY initial capacity k>=1, every trace of recording events that respects the reservation discipline (check_space(n) licenses n unchecked pushes) stores nothing at or beyond the capacities the code computes (invariant n_ops < capacity through both growth formulas), push_lhs/push_lhs_range never overflow, what is recorded is independent of the capacities and preallocate_* change capacities only; a site pushing more than reserved+1 provably overflows for k=R+1. Generated obligations: tools/gen_sites.py re-reads every check_space call of the current sources and the theorem C09_every_site_reserves_enough re-proves demand <= reservation for each. Tie: instrumented build (guarded hook) under ASan over a catalogue of 40+ recording statement kinds x sizes x spare-slot counts x tiny initial capacities: hook trace = model trace, every observed trace satisfies the discipline hypothesis, derivatives identical across capacities.",
+   note="Demand column of the site table is hand-read (checked dynamically against every observed trace); translator grammar trusted; real memory safety of the stores rests on ASan + the capacity hook; complex arrays and ADEPT_STACK_STORAGE_STL out of scope.",
+   technique="Coq proof of buffer-capacity invariant + generated per-site obligations (translator) + instrumented differential run",
+   design="DESIGN.md §4 C09"),
  "C13": dict(
    text="Machine-checked proof that the OpenMP Jacobian routines, modelled as an arbitrary execution order of ceil(k/M) blocks with private buffers, perform a permutation of the serial routine's writes (each cell produced by exactly one block, no re-association), so the resulting matrix is identical for every schedule and thread count; blocks write disjoint cells. Tie: harness built with -fopenmp, set_max_jacobian_threads(1..16), compared exactly with the model and the unit-vector passes; a guarded hook confirms several threads processed blocks.",
    note="Threads are modelled at block granularity (inside a block only private memory and disjoint output cells are touched - proved); the OpenMP runtime executing each iteration exactly once is trusted; hardware interleavings are exercised, not proved.",
